@@ -7,7 +7,8 @@ C04 — additions after the independent review (review-a.md, C04 B3, B5, C):
   instead of a `CommMonoid` instance (which `f64` is not: `*` is not associative), and the map corollaries with their hypotheses
   discharged from those two facts;
 * B5: `Matrix op Matrix` (non-assign) on non-broadcastable shapes panics (`= none`), through the C12 rejection theorem;
-* C: instantiations of the real-arithmetic reduction theorems (all hypotheses, non-trivial inputs).
+* C: instantiations of the real-arithmetic reduction theorems (all hypotheses, non-trivial inputs);
+* B6 / F55: `logsumexp` of the empty slice is `f64::NEG_INFINITY` (`logsumexpE`, the model of the repaired function).
 -/
 namespace Cv.C04
 open Cv Cv.Vops Cv.VecOps Cv.C04W
@@ -108,5 +109,30 @@ example : 1 ≤ shiftedExpSum (maxL nanT (-1) [1000, 999]) [1000, 999] ∧
     (by intro v hv; simp at hv; rcases hv with rfl | rfl <;> simp [nanT] <;> norm_num) (by simp)
   exact ⟨h1, by simpa using h2⟩
 end
+
+/-! ### B6 / F55 — `logsumexp` of the empty slice is `f64::NEG_INFINITY` (repaired in /repo be4665b) -/
+
+/-- the empty-slice guard: `logsumexp(&[]) = f64::NEG_INFINITY` (the definition: `ln` of the empty sum, `ln 0 = −∞`) -/
+theorem logsumexpE_nil [Add α] [Sub α] [Zero α] [LT α] [DecidableLT α] [Transc α]
+    (isNaN : α → Bool) (nan ninf : α) : logsumexpE isNaN nan ninf [] = ninf := rfl
+
+/-- on every non-empty slice the function is the shifted formula the other theorems are about -/
+theorem logsumexpE_of_ne [Add α] [Sub α] [Zero α] [LT α] [DecidableLT α] [Transc α]
+    (isNaN : α → Bool) (nan ninf : α) (x : List α) (hne : x ≠ []) :
+    logsumexpE isNaN nan ninf x = logsumexpL isNaN nan x := by
+  cases x with
+  | nil => exact absurd rfl hne
+  | cons a l => rfl
+
+/-- `logsumexp` as the code computes it now, over ℝ, for every non-empty input: `ln Σ exp xᵢ` (whatever stands for
+`f64::NEG_INFINITY`); the empty case is `logsumexpE_nil`. -/
+theorem logsumexpE_real (isNaN : ℝ → Bool) (nan ninf : ℝ) (x : List ℝ) (hne : x ≠ []) :
+    logsumexpE isNaN nan ninf x = Real.log ((x.map Real.exp).sum) := by
+  rw [logsumexpE_of_ne isNaN nan ninf x hne, logsumexpL_real isNaN nan x hne]
+
+-- at `Float`: the reply to `red logsumexp … v 0` is the bit pattern fff0000000000000
+example : logsumexpE Float.isNaN (0.0 / 0.0) (Float.ofBits 0xFFF0000000000000) [] = Float.ofBits 0xFFF0000000000000 := rfl
+noncomputable example : logsumexpE (fun v : ℝ => decide (v = -1)) (-1) (-2) [0, 0] = Real.log 2 := by
+  rw [logsumexpE_real _ _ _ _ (by simp)]; norm_num
 
 end Cv.C04
